@@ -6,7 +6,7 @@ head = subprocess.check_output(["git", "-C", "/repo", "rev-parse", "--short", "H
 matrix = collections.defaultdict(list)
 # later files override earlier rows of the same (seed, check): W2b re-ran the seeds whose first run overlapped an edit of /verif
 rows_by_key = collections.OrderedDict()
-for name in ("RESULTS.tsv", "RESULTS_W2.tsv", "RESULTS_W2b.tsv", "RESULTS_W3.tsv", "RESULTS_W3b.tsv", "RESULTS_W4.tsv", "RESULTS_W4b.tsv", "RESULTS_W5.tsv", "RESULTS_W6.tsv", "RESULTS_W7.tsv"):
+for name in ("RESULTS.tsv", "RESULTS_W2.tsv", "RESULTS_W2b.tsv", "RESULTS_W3.tsv", "RESULTS_W3b.tsv", "RESULTS_W4.tsv", "RESULTS_W4b.tsv", "RESULTS_W5.tsv", "RESULTS_W6.tsv", "RESULTS_W7.tsv", "RESULTS_W7b.tsv", "RESULTS_W8.tsv", "RESULTS_W9.tsv", "RESULTS_W10.tsv", "RESULTS_W11.tsv", "RESULTS_W12.tsv"):
     tsv = os.path.join(BASE, name)
     if not os.path.exists(tsv):
         continue
@@ -22,7 +22,7 @@ for name in ("RESULTS.tsv", "RESULTS_W2.tsv", "RESULTS_W2b.tsv", "RESULTS_W3.tsv
 for (sid, _), rows in rows_by_key.items():
     matrix[sid] += rows
 PORTED = {"C17-1": "rem.rs guard rewritten after fix d5ae55a", "C14-2": "to_int arm rewritten after fix 3f1f747", "C18-3": "transpiler Instruction::repr rewritten after fix 03a4aab"}
-RETIRED = {"C18-2": "valid against the pinned tree up to f4acc69 (confirmed there: demo fails with the change); fix 03a4aab makes both writers quote every argument, so an unquoted comma no longer occurs and the change no longer breaks C18 on the repaired tree (re-verification: demo passes with the change)"}
+RETIRED = {"W11-C17-2": "valid against the tree up to 31a5204 (confirmed there); fix 7b02fbb (`ret` dereferences a view inside the callee) makes the change harmless: re-verification on the repaired tree - the demonstration passes with the change", "C18-2": "valid against the pinned tree up to f4acc69 (confirmed there: demo fails with the change); fix 03a4aab makes both writers quote every argument, so an unquoted comma no longer occurs and the change no longer breaks C18 on the repaired tree (re-verification: demo passes with the change)"}
 for sid in sorted(os.listdir(BASE)):
     d = os.path.join(BASE, sid)
     mp = os.path.join(d, "meta.json")
